@@ -8,7 +8,6 @@ use serde_json::{json, Value};
 use crate::choices::Choices;
 use crate::engine::{GenCtx, Outcome, Params, Property, RunCtx, Tier};
 use crate::fmt::{format_text, Opts};
-use crate::props::common::*;
 
 pub struct C11;
 
